@@ -452,6 +452,10 @@ class World(object):
         # a number; or None ("nothing yet") when the definition has a `return None`
         opt = any(isinstance(n, ast.Return) and (n.value is None or (isinstance(n.value, ast.Constant) and n.value.value is None))
                   for n in ast.walk(fn.node))
+        ret = getattr(fn.node, 'returns', None)
+        if isinstance(ret, ast.Name) and ret.id == 'int':
+            it.ctx.axiom(is_kind(app, INT))          # declared `-> int`: positions, counts, 0/1 flags
+            return Sym(app, (INT,))
         return Sym(app, (NONE, INT, FLOAT) if opt else (INT, FLOAT))
 
     def instantiate(self, it, cls, args, kwargs):
